@@ -887,9 +887,18 @@ def explore(harness: Callable[[Ctx], Any], workers: int = 0, split_depth: int = 
     out.items = len(items)
     if items and out.violation is None and out.inconclusive is None:
         mp = multiprocessing.get_context("fork")
-        with mp.Pool(workers) as pool:
+        pool = mp.Pool(workers)
+        try:
             jobs = [(harness, it, deadline, timeout_ms) for it in items]
-            for r in pool.imap_unordered(_worker, jobs, chunksize=max(1, min(16, len(jobs) // (workers * 32)))):
+            it = pool.imap_unordered(_worker, jobs, chunksize=max(1, min(16, len(jobs) // (workers * 32))))
+            while True:
+                try:
+                    r = it.next(timeout=max(60.0, deadline - time.time() + 120.0))
+                except StopIteration:
+                    break
+                except multiprocessing.TimeoutError:
+                    out.inconclusive = "results of the worker processes did not arrive in time (a worker died or hangs)"
+                    break
                 out.stats.add(r["stats"])
                 out.merge_cov(r["coverage"])
                 out.errors.extend(r["errors"])
@@ -903,10 +912,30 @@ def explore(harness: Callable[[Ctx], Any], workers: int = 0, split_depth: int = 
                     out.inconclusive = r["inconclusive"]
                 if r.get("violation") and out.violation is None:
                     out.violation = r["violation"]
-                    pool.terminate()
                     break
+        finally:
+            _shutdown_pool(pool)
     out.wall_s = time.time() - t0
     return out
+
+
+def _shutdown_pool(pool: Any) -> None:
+    """Pool.terminate() can block forever when a worker is in the middle of sending a result; do it with a
+    time limit and kill the workers outright if it does not come back."""
+    import signal
+    import threading
+
+    procs = list(getattr(pool, "_pool", []))
+    t = threading.Thread(target=pool.terminate, daemon=True)
+    t.start()
+    t.join(15)
+    if t.is_alive():
+        for p in procs:
+            try:
+                os.kill(p.pid, signal.SIGKILL)
+            except OSError:
+                pass
+        t.join(5)
 
 
 def replay(harness: Callable[[Ctx], Any], record: Dict[str, Any], timeout_ms: int = 20000) -> Dict[str, Any]:
